@@ -481,7 +481,14 @@ def _link_status_enum(repo):
                     mem.append((alias, const(st.value)))
     if not mem:
         raise AnchorError("LinkStatus members not found")
-    return enum.IntEnum("LinkStatus", mem)
+    # str(member): the class's own __str__ when it is `return self.name` (Python >= 3.11 would otherwise print the number)
+    strs = [f for f in cls.body if isinstance(f, ast.FunctionDef) and f.name == "__str__"]
+    by_name = bool(strs) and [unparse(r.value) for r in walk(strs[0]) if isinstance(r, ast.Return)] == ["self.name"]
+
+    class _Base(enum.IntEnum):
+        def __str__(self):
+            return self.name if by_name else int.__str__(self)
+    return _Base("LinkStatus", mem)
 
 
 # the collections.abc mix-in methods the registries / Demands inherit, written out in the interpreted subset exactly as the stdlib defines them
